@@ -129,7 +129,7 @@ def has_bt(e):
 
 
 def well_formed(e, rules=None):
-    """no repetition / skipping of something that can succeed without consuming"""
+    """no repetition of something that can succeed without consuming"""
     k = e[0]
     subs = [x for x in e[1:] if isinstance(x, tuple) and x and isinstance(x[0], str)]
     if not all(well_formed(x, rules) for x in subs):
@@ -138,7 +138,8 @@ def well_formed(e, rules=None):
     if k == 'rep':
         return not nullable(e[1], rules) and not has_bt(e)
     if k == 'skip':
-        return not any(nullable(x, rules) for x in e[1:]) and not has_bt(e)
+        # an item that matches without consuming has skipped nothing (Skip goes on with the next item): allowed
+        return not has_bt(e)
     if k == 'sep':
         return not nullable(e[1], rules) and not has_bt(e)
     return True
